@@ -243,6 +243,7 @@ Proof.
     destruct (f_contour (st_f s)); [destruct (w_mode (st_w s) =? 1)|]; reflexivity.
   - unfold store_trace. destruct (trace_loop _ _ _ _ _); reflexivity.
   - unfold store_table. destruct (amem name (f_tables (st_f s))); reflexivity.
+  - unfold store_image. destruct (nonempty _); reflexivity.
 Qed.
 
 Lemma scalar_step s f g isint data :
@@ -500,7 +501,7 @@ Proof.
 Qed.
 
 Lemma nd_frame s o :
-  match o with OOpen _ | OImage _ _ _ _ _ => True
+  match o with OOpen _ | OImage _ _ _ _ _ | OArr _ _ _ _ _ _ => True
           | _ => f_nd (st_f (fst (step s o))) = f_nd (st_f s) end.
 Proof.
   destruct o; try exact I; cbn [step fst st_f set_file]; try reflexivity.
@@ -525,6 +526,7 @@ Proof.
   - unfold store_contour.
     destruct (f_contour (st_f s)); [destruct (w_mode (st_w s) =? 1)|]; reflexivity.
   - unfold store_table. destruct (amem name (f_tables (st_f s))); reflexivity.
+  - unfold store_image. destruct (nonempty _); reflexivity.
 Qed.
 
 Lemma store_trace_spec s shape isz data tr :
@@ -571,6 +573,11 @@ Proof.
   - cbn [step fst st_f set_file].
     destruct (store_trace_spec s shape itemsize data 0 (conj H1 H2)) as (A & B & _).
     split; [rewrite B; exact H1|exact A].
+  - split; [|rewrite Ht; exact H2].
+    cbn [step fst st_f set_file]. unfold store_image.
+    destruct (nonempty _); cbn [fst f_nd with_nd].
+    + apply ChunksPos_write. destruct (w_mode (st_w s) =? 1); [now apply ChunksPos_adel|exact H1].
+    + destruct (w_mode (st_w s) =? 1); [now apply ChunksPos_adel|exact H1].
 Qed.
 
 Lemma map_as_bool_255 (data : list row) :
@@ -630,6 +637,10 @@ Proof.
   destruct o; cbn [spec_nd]; try (unfold rd_nd; rewrite Hfr; reflexivity).
   - cbn [step fst st_f]. destruct (mode =? 2); reflexivity.
   - rewrite (image_step s f f0 isbool shape itemsize data HI). destruct (f0 =? f); reflexivity.
+  - change (step s (OArr f0 isbool shape dshape itemsize flat))
+      with (step s (OImage f0 isbool (arr_shape f0 shape dshape) itemsize
+                           (arr_events f0 shape dshape flat))).
+    rewrite (image_step s f f0 isbool _ itemsize _ HI). destruct (f0 =? f); reflexivity.
 Qed.
 
 Theorem trace_history tr : forall ops s, NdInv (st_f s) ->
@@ -706,6 +717,7 @@ Proof.
   - split; [|reflexivity]. unfold store_trace. destruct (trace_loop _ _ _ _ _); reflexivity.
   - split; [|reflexivity]. unfold store_table.
     destruct (amem name (f_tables (st_f s))); reflexivity.
+  - split; [|reflexivity]. unfold store_image. destruct (nonempty _); reflexivity.
 Qed.
 
 Lemma contour_step s data :
@@ -801,6 +813,7 @@ Proof.
     destruct (f_contour (st_f s)); [destruct (w_mode (st_w s) =? 1)|]; reflexivity.
   - unfold store_trace. destruct (trace_loop _ _ _ _ _); reflexivity.
   - unfold store_table. destruct (amem name (f_tables (st_f s))); reflexivity.
+  - unfold store_image. destruct (nonempty _); reflexivity.
 Qed.
 
 Lemma log_step s name g lines :
@@ -846,6 +859,7 @@ Proof.
   - unfold store_contour.
     destruct (f_contour (st_f s)); [destruct (w_mode (st_w s) =? 1)|]; reflexivity.
   - unfold store_trace. destruct (trace_loop _ _ _ _ _); reflexivity.
+  - unfold store_image. destruct (nonempty _); reflexivity.
 Qed.
 
 Theorem table_history name : forall ops s,
@@ -946,7 +960,7 @@ Proof.
   intros f len. unfold feat_len. vm_compute f_contour. vm_compute f_trace. vm_compute f_scal.
   vm_compute f_nd. unfold F_CONTOUR, F_TRACE.
   destruct (f =? 3); [intros [= <-]; reflexivity|].
-  destruct (f =? 16); [discriminate|]. cbn [alookup].
+  destruct (f =? 19); [discriminate|]. cbn [alookup].
   destruct (f =? 4); [intros [= <-]; reflexivity|].
   destruct (f =? 10); [intros [= <-]; reflexivity|discriminate].
 Qed.
@@ -973,3 +987,17 @@ Proof. exact (log_history name ops init). Qed.
 Corollary table_history_init name ops :
   rd_table (st_f (run init ops)) name = spec_table name None ops.
 Proof. exact (table_history name ops init). Qed.
+
+(* the single-event forms: a user-shaped array with shape == data.shape, a 2-d
+   array for an image-like feature; several events; a bad shape *)
+Example c01_arr_nonvacuous :
+  arr_events 22 [2; 3] [2; 3] [1; 2; 3; 4; 5; 6] = [[1; 2; 3; 4; 5; 6]]
+  /\ arr_events 22 [2; 3] [2; 2; 3] [1; 2; 3; 4; 5; 6; 7; 8; 9; 10; 11; 12]
+     = [[1; 2; 3; 4; 5; 6]; [7; 8; 9; 10; 11; 12]]
+  /\ arr_events F_QPI_AMP [] [2; 3] [1; 2; 3; 4; 5; 6] = [[1; 2; 3; 4; 5; 6]]
+  /\ arr_events F_IMAGE [] [2; 1; 3] [1; 2; 3; 4; 5; 6] = [[1; 2; 3]; [4; 5; 6]]
+  /\ arr_events 22 [2; 3] [3; 2] [1; 2; 3; 4; 5; 6] = []
+  /\ rd_nd (st_f (run init [OOpen 2; OArr 22 false [2; 3] [2; 3] 8 [1; 2; 3; 4; 5; 6];
+                            OArr 22 false [2; 3] [1; 2; 3] 8 [7; 8; 9; 10; 11; 12]])) 22
+     = [[1; 2; 3; 4; 5; 6]; [7; 8; 9; 10; 11; 12]].
+Proof. vm_compute. repeat split. Qed.
